@@ -25,7 +25,7 @@ DEPENDS = {
     "C09": {"C08": (["R1", "R2", "R3", "R6", "R7", "R8", "R9"], "subfield serializers are built from the combinators"),
             "C10": (["R1", "R2", "R3", "R4"], "quantised members of subfield templates")},
     "C10": {},
-    "C11": {"C09": (["R2", "R4", "R5", "R6"], "beautified text goes through the subfield serializers (pod form)"),
+    "C11": {"C09": (["R2", "R4", "R5", "R6", "R7"], "beautified text goes through the subfield serializers (pod form)"),
             "C10": (["R1", "R3", "R4"], "pretty-printed quantised / fixed-point subfields must re-encode exactly")},
     "C12": {"C18": (["R6"], "LLSDMessageSerializer ends in Message.from_dict / to_dict: key agreement")},
     "C13": {"C08": (["R1", "R2", "R3", "R6", "R7", "R8", "R9"], "both decoders share the combinator sub-templates")},
